@@ -126,6 +126,27 @@ def main(tier):
             scn = RC.scenario_from_graph(g, placement=k, jobs=jobs, git_tpl=tpl,
                                          sched={"mode": "script", "choices": []})
             scns.append(scn)
+        # the same instances with one dependency listed TWICE under two spellings (":x" and "//pkg:x", or with a trailing
+        # slash): such a definition must be rejected, and in any case no task may run twice
+        ndup = 150 if tier == "quick" else 3000
+        dup_from = len(scns)
+        for k, inst in enumerate(chosen[:ndup * 4]):
+            if len(scns) - dup_from >= ndup:
+                break
+            g = dict(inst["g"])
+            cand = [t for t in range(1, g["n"] + 1) if g["deps"][t - 1] and t in inst["needed"]]
+            if not cand:
+                continue
+            g["mustRun"] = inst["mustRun"]
+            scn = RC.scenario_from_graph(g, placement=3, jobs=1 + (k % 2), git_tpl=tpl, sched={"mode": "script", "choices": []})
+            t = cand[k % len(cand)]
+            task = scn["project"]["tasks"][t - 1]
+            d0 = task["deps"][k % len(task["deps"])]
+            alt = ("//p:" + d0[1:]) if d0.startswith(":") else (d0.replace("//p:", "//p/:") if k % 2 else ":" + d0.split(":")[1])
+            task["deps"] = task["deps"] + [alt]
+            scn["dup_spelling"] = True
+            chosen.append(inst)
+            scns.append(scn)
         results = RC.run_batch(scns)
     verdicts, traces, errs, tr = RC.judge_batch(scns, results)
     for i, r in errs:
@@ -147,7 +168,7 @@ def main(tier):
                           scns[i], "graph deps=%s kind=%s cachedTs=%s: %s" % (
                               inst["g"]["deps"], inst["g"]["kind"], inst["g"]["cachedTs"], bad),
                           extra={"trace": by_id[i]})
-        else:
+        elif not scns[i].get("dup_spelling"):
             d = drift_against_model(inst, by_id[i])
             if d:
                 rep.drift.append("instance deps=%s kind=%s: %s" % (inst["g"]["deps"], inst["g"]["kind"], d))
